@@ -767,8 +767,16 @@ def shadow_phis(desc):
     return desc, n
 
 
-def steer(desc, exclude, excluded=None):
+def steer(desc, exclude, excluded=None, restricted=True):
     """Generator-side exclusion of open findings that cannot be expressed as a Profile restriction."""
+    if restricted:
+        # genir guards variable divisors with 'x | 1' without asking the profile; ir_to_wasm has no 64 bit '|' and one
+        # such instruction rejects the whole module (20 % of the restricted population): use 'x + 1' there
+        for f in desc["functions"]:
+            for b in f["blocks"]:
+                for ins in b["ins"]:
+                    if ins[0] == "binop" and ins[2] in ("i64", "u64") and ins[4] == "|":
+                        ins[4] = "+"
     if "KF7" in exclude and phi_on_branch_edge(desc):
         desc, n = shadow_phis(desc)
         if n and excluded is not None:
@@ -874,7 +882,7 @@ def calls_for(draw, desc, profile):
 
 @st.composite
 def ir_case_strategy(draw, profile=PROFILE, exclude=(), init="stores", excluded=None, variant="main"):
-    desc = steer(draw(genir.modules(profile)), exclude, excluded)
+    desc = steer(draw(genir.modules(profile)), exclude, excluded, restricted=(variant != "full_menu"))
     return {"module": desc, "calls": calls_for(draw, desc, profile), "init": init, "variant": variant}
 
 
